@@ -95,7 +95,7 @@ pub fn spec_for(property: &str) -> Option<CheckSpec> {
         "C04" => CheckSpec {
             property: "C04".into(),
             level: "exploration",
-            profiles: vec![p("seq-maint", 16), p("seq-filter", 4), p("seq-maint+forcerace", 2), p("seq-deepindex", 1), p("seq-manyversions+maint", 3)],
+            profiles: vec![p("seq-maint", 16), p("seq-filter", 4), p("seq-maint+forcerace", 2), p("seq-deepindex", 1), p("seq-manyversions+maint", 3), p("seq-maint+opreadfault", 3)],
             thorough_extra: vec![],
             quick_runs: 8_000,
             thorough_runs: 400_000,
